@@ -11,7 +11,7 @@
    In-block decoding is an oracle value per block (Ok objs | Err | Panic), see checks.d/C06.json. *)
 From Coq Require Import ZArith List Bool Lia.
 From Verif Require Import Framing.Model Framing.Valid Framing.Proofs Framing.GenOk
-                          C06.Spec C06.Proofs C06.ProofsDamage C06.Bridge.
+                          C06.Spec C06.Proofs C06.ProofsDamage C06.InBlock C06.Bridge.
 Import ListNotations.
 Open Scope Z_scope.
 
@@ -82,6 +82,28 @@ Theorem C06_block_outcome_state_independent : forall c st1 st2 m,
   decode_tree c st1 m = decode_tree c st2 m.
 Proof. exact decode_tree_state_independent. Qed.
 Print Assumptions C06_block_outcome_state_independent.
+
+(* 2b. The in-block classes are theorems about the block decoder's model (layer L1), not oracle
+   values: a block whose message tree has a plain Node group, a DenseNodes message without
+   ids/lat/lon, a dense column shorter than ids, a string-table index out of range at ANY place an
+   index is used (dense keys_vals, dense user_sid, way/relation keys, vals, info.user_sid,
+   relation roles_sid), vals shorter than keys, way refs/lat/lon or relation roles/memids/types of
+   different length, decodes to an error from every decoder state ... *)
+Theorem C06_in_block_damage_is_err : forall c m, in_block_damage c m ->
+  forall st, exists e, Verif.Pbf.Model.scan_result c st m = Verif.Pbf.Tree.Err e.
+Proof. exact in_block_damage_is_err. Qed.
+Print Assumptions C06_in_block_damage_is_err.
+
+(* ... and therefore ends the scan with an error after exactly the intact blocks before it. *)
+Theorem C06_in_block_damage_detected :
+  forall c (good : list (frame Verif.Pbf.Model.obj)) bad rest avail b st m,
+  valid_file good = true ->
+  block_read bad (avail - total_size good) = Some (TyData, b) ->
+  enc_ok (b_enc b) = true -> b_pay b = PData (decode_tree c st m) ->
+  in_block_damage c m ->
+  scan current (good ++ bad :: rest) avail = Result (spec_deliveries good) Failed.
+Proof. exact in_block_damage_detected. Qed.
+Print Assumptions C06_in_block_damage_detected.
 
 Theorem C06_getData_never_panics : forall cap0 e, get_data current cap0 e <> GPanic.
 Proof. exact get_data_no_panic. Qed.
@@ -183,3 +205,55 @@ Proof. vm_compute. reflexivity. Qed.
 Example ex_never_crashes_on_garbage :
   out (scan current [ex_bad DmgDatasizeNegative; ex_bad DmgEncoding] 1000) = Failed.
 Proof. vm_compute. reflexivity. Qed.
+
+(* in-block damage classes are inhabited: concrete trees, and what the L1 model computes for them *)
+Module InBlockExamples.
+  Import Verif.Pbf.Tree Verif.Pbf.Model.
+  Definition table : Z * wval := (1, WMsg [(1, WStr []); (1, WStr [107]); (1, WStr [118])]).  (* "", "k", "v" *)
+  (* a way whose second key index is 3 = the table length *)
+  Definition bad_way : msg :=
+    [table; (2, WMsg [(3, WMsg [(1, WVar 7); (2, WPacked [1; 3]); (3, WPacked [2; 2]); (8, WPacked [2; 2])])])].
+  (* a relation with three roles and two types *)
+  Definition bad_rel : msg :=
+    [table; (2, WMsg [(4, WMsg [(1, WVar 9); (8, WPacked [1; 1; 2]); (9, WPacked [2; 2; 2]); (10, WPacked [0; 1])])])].
+  (* DenseNodes without the lat column *)
+  Definition bad_dense : msg := [table; (2, WMsg [(2, WMsg [(1, WPacked [2; 2]); (9, WPacked [2; 2])])])].
+  (* a plain Node group after a good way *)
+  Definition bad_plain : msg :=
+    [table; (2, WMsg [(3, WMsg [(1, WVar 7); (8, WPacked [2])]); (1, WMsg [(1, WVar 5)])])].
+
+  Example bad_way_damaged : in_block_damage cfg_all bad_way.
+  Proof.
+    eapply (IB_way_tag cfg_all bad_way _ _ [1; 3] [2; 2] 3);
+      [right; left; reflexivity|left; reflexivity|reflexivity|reflexivity|reflexivity| |].
+    - left. right. left. reflexivity.
+    - unfold u32_in_table, in_table. vm_compute. intros [_ [_ H]]. discriminate.
+  Qed.
+  Example bad_way_result : scan_result cfg_all dstate0 bad_way = Err E_INDEX.
+  Proof. vm_compute. reflexivity. Qed.
+
+  Example bad_rel_damaged : in_block_damage cfg_all bad_rel.
+  Proof.
+    eapply (IB_rel_columns cfg_all bad_rel _ _ [1; 1; 2] [2; 2; 2] [0; 1]);
+      [right; left; reflexivity|left; reflexivity|reflexivity|reflexivity|reflexivity|reflexivity|].
+    left. cbn. lia.
+  Qed.
+  Example bad_rel_result : scan_result cfg_all dstate0 bad_rel = Err E_COLUMNS.
+  Proof. vm_compute. reflexivity. Qed.
+
+  Example bad_dense_damaged : in_block_damage cfg_all bad_dense.
+  Proof.
+    eapply (IB_dense_missing cfg_all bad_dense _ _ 8);
+      [right; left; reflexivity|left; reflexivity|reflexivity|right; left; reflexivity|reflexivity].
+  Qed.
+  Example bad_dense_result : scan_result cfg_all dstate0 bad_dense = Err E_NO_LATS.
+  Proof. vm_compute. reflexivity. Qed.
+
+  Example bad_plain_damaged : in_block_damage cfg_all bad_plain.
+  Proof.
+    eapply (IB_plain_node cfg_all bad_plain _ (WMsg [(1, WVar 5)]));
+      [right; left; reflexivity|right; left; reflexivity].
+  Qed.
+  Example bad_plain_result : scan_result cfg_all dstate0 bad_plain = Err E_PLAIN.
+  Proof. vm_compute. reflexivity. Qed.
+End InBlockExamples.
